@@ -155,6 +155,12 @@ def check(run):
     covered, exempt = guard_lists()
     run.cov["correspondence"]["guard_keywords_found_in_source"] = len(recs)
     run.cov["correspondence"]["guard_keywords_covered_by_model"] = len([r for r in recs if (r["file"], r["keyword"]) in covered])
+    by_kind = {}
+    for rec in recs:
+        for u in rec["uses"]:
+            by_kind[u[0]] = by_kind.get(u[0], 0) + 1
+    run.cov["correspondence"]["guard_use_sites_by_kind"] = by_kind
+    run.cov["correspondence"]["guard_keywords_read_with_key_lookup"] = sorted(r["keyword"] for r in recs if "key_lookup" in r["type"])
     for rec in recs:
         key = (rec["file"], rec["keyword"])
         run.count(("guardscan",) + key, key in covered)
